@@ -1211,6 +1211,16 @@ FLUSH_JOB_ZUC256_EEA3:
         bsf             DWORD(tmp4), DWORD(tmp3)
         jz              %%clear_ks_done_flush_eia3
         btr             DWORD(tmp3), DWORD(tmp4)
+        ; Clear digest of the lane (tag of the returned job is already copied out)
+%if %%TAG_SIZE == 4
+        mov             dword [state + _zuc_args_digest + tmp4*4], 0
+%elif %%TAG_SIZE == 8
+        mov             qword [state + _zuc_args_digest + tmp4*8], 0
+%else ; %%TAG_SIZE == 16
+        mov             DWORD(tmp), DWORD(tmp4)
+        shl             DWORD(tmp), 4
+        vmovdqa         [state + _zuc_args_digest + tmp], xmm0
+%endif
         mov             DWORD(tmp), DWORD(tmp4)
         and             DWORD(tmp), 3
         shl             DWORD(tmp), 9
